@@ -544,3 +544,48 @@ Proof.
   - apply in_map. apply filter_In. split; auto. apply Nat.eqb_eq. exact E.
   - apply in_map. exact In.
 Qed.
+
+(** ** Witnesses *)
+(** mutation { a { x y } b } with x: Int! resolved by a promise that fails, y and b resolved by
+    promises; the idle handler fulfils x first, then y and b together.  x's failure makes a null
+    at once; y's promise is abandoned and is fulfilled while b is being executed. *)
+Definition wit_abandon : selset :=
+  [ ([97%N], FP None false (Some (VObj [ ([120%N], FP (Some 0%N) true None);
+                                         ([121%N], FP (Some 1%N) false (Some (VLeaf 2))) ])));
+    ([98%N], FP (Some 2%N) false (Some (VLeaf 3))) ].
+
+Theorem mutation_serial_refuted_when_promise_abandoned :
+  exists sigma fuel root,
+    fair sigma /\ NoDup (map fst root) /\ excl_abandoned_promise root = true /\
+    exists r, run sigma Mutation fuel root = Done r /\ ~ Serial (map fst root) (r_events r).
+Proof.
+  exists (sigma_ranks [0; 1; 1]), 4, wit_abandon.
+  split; [apply sigma_ranks_fair|].
+  split; [repeat constructor; simpl; intuition discriminate|].
+  split; [reflexivity|].
+  eexists. split; [vm_compute; reflexivity|].
+  intros S.
+  destruct (S [EStart [PKey [97%N]]; EStart [PKey [97%N]; PKey [120%N]]; EStart [PKey [97%N]; PKey [121%N]];
+               EFulfil [PKey [97%N]; PKey [120%N]]]
+              (EStart [PKey [98%N]]) [] (EFulfil [PKey [97%N]; PKey [121%N]]) [EFulfil [PKey [98%N]]] eq_refl)
+    as (i & j & A & B & L).
+  vm_compute in A, B. injection A as <-. injection B as <-. lia.
+Qed.
+
+(** the same two asynchronous root fields as a query and as a mutation, under the schedule that
+    fulfils the second promise first: the query interleaves, the mutation does not *)
+Definition wit_two : selset :=
+  [ ([97%N], FP (Some 0%N) false (Some (VLeaf 1)));
+    ([98%N], FP (Some 1%N) false (Some (VLeaf 2))) ].
+
+Theorem query_parallel_witness :
+  exists r, run (sigma_ranks [1; 0]) Query 3 wit_two = Done r /\
+            strict_serial (map fst wit_two) (r_events r) = false /\
+            ~ Serial (map fst wit_two) (r_events r).
+Proof.
+  eexists. split; [vm_compute; reflexivity|]. split; [vm_compute; reflexivity|].
+  intros S.
+  destruct (S [EStart [PKey [97%N]]] (EStart [PKey [98%N]]) [EFulfil [PKey [98%N]]]
+              (EFulfil [PKey [97%N]]) [] eq_refl) as (i & j & A & B & L).
+  vm_compute in A, B. injection A as <-. injection B as <-. lia.
+Qed.
